@@ -50,6 +50,25 @@ Theorem failed_input_leaves_no_control_trace :
       = fst (run_session (repaired r) h1 s) ++ fst (run_session (repaired r) h2 s).
 Proof. exact no_trace_lemma. Qed.
 
+(* "all interleavings of a sequence of succeeding inputs with failing inputs, at every position and with any
+   multiplicity": a history is a list of inputs each tagged inserted (true) or base (false) - any number of inserted
+   inputs, anywhere, of any kind. What the base inputs show inside the whole history (outcome kinds, probe
+   observations) is exactly what they show when the base history runs alone, and both sessions end in the same
+   control state. *)
+Theorem every_interleaving_leaves_no_control_trace :
+  forall (r : bool) (h : list (bool * skel)) (s : session),
+  top_level (st s) ->
+  base_obs h (fst (run_session (repaired r) (all_inputs h) s))
+  = fst (run_session (repaired r) (base_inputs h) s).
+Proof. exact interleaving_lemma. Qed.
+
+Theorem every_interleaving_same_final_control_state :
+  forall (r : bool) (h : list (bool * skel)) (s : session),
+  top_level (st s) ->
+  st (snd (run_session (repaired r) (all_inputs h) s))
+  = st (snd (run_session (repaired r) (base_inputs h) s)).
+Proof. exact interleaving_state_lemma. Qed.
+
 (* ---- the tree as pinned (before 31dc576 and 53bcb24) violated control_restored ---- *)
 Definition depth_overflow : skel := KCall 1 (KCall 1 (KCall 1 (KLeaf LDepth))).   (* func f(n){f(n+1)};f(0) *)
 Definition print_probe : skel := KProbe.                                          (* println("b") *)
@@ -87,6 +106,27 @@ Example C10_ex_all_kinds :
          (OPanic PDepth, []); (OValue, [(0,0)]); (OError, []); (OValue, []); (OValue, [(0,0)]) ].
 Proof. split; [exists 0; repeat split | vm_compute; reflexivity]. Qed.
 
+(* an interleaving with failing inputs of several kinds at several positions, one of them three times: the base
+   inputs (two probes in loops / calls and a plain one) show the same with and without them; on the pinned tree they
+   do not *)
+Definition tagged_history : list (bool * skel) :=
+  [ (true, KLoop true true [KLeaf LError]);
+    (false, KLoop true true [KProbe; KProbe]);
+    (true, depth_overflow); (true, depth_overflow); (true, depth_overflow);
+    (false, KCall 2 (KSeq [KProbe]));
+    (true, KCall 1 (KLoop true true [KLeaf LPanic]));
+    (false, KProbe) ].
+
+Example C10_ex_interleaving :
+  base_inputs tagged_history = [KLoop true true [KProbe; KProbe]; KCall 2 (KSeq [KProbe]); KProbe]
+  /\ base_obs tagged_history (fst (run_session (repaired true) (all_inputs tagged_history) new_session))
+     = [(OValue, [(1,0); (1,0)]); (OValue, [(2,1)]); (OValue, [(0,0)])]
+  /\ fst (run_session (repaired true) (base_inputs tagged_history) new_session)
+     = [(OValue, [(1,0); (1,0)]); (OValue, [(2,1)]); (OValue, [(0,0)])]
+  /\ base_obs tagged_history (fst (run_session (pinned true) (all_inputs tagged_history) new_session))
+     <> fst (run_session (pinned true) (base_inputs tagged_history) new_session).
+Proof. vm_compute. repeat split; try reflexivity. discriminate. Qed.
+
 (* without the context refresh of EvalOne a dead context would fail every later input *)
 Example C10_ex_context_matters : forall c p m, run_input c p (mkS m false) = (GError, m, []).
 Proof. exact dead_context_fails. Qed.
@@ -94,3 +134,5 @@ Proof. exact dead_context_fails. Qed.
 Print Assumptions control_restored.
 Print Assumptions control_state_unchanged.
 Print Assumptions failed_input_leaves_no_control_trace.
+Print Assumptions every_interleaving_leaves_no_control_trace.
+Print Assumptions every_interleaving_same_final_control_state.
